@@ -581,7 +581,7 @@ func (vc *VC) operand(fr *Frame, v ssa.Value) Val {
 		t := x.Type().(*types.Pointer).Elem()
 		return Val{Addr: &Addr{Kind: aGlobal, Comp: vc.globalComp(x), Typ: t, GKey: globalKey(x)}, Typ: x.Type(), Global: globalKey(x)}
 	case *ssa.Function:
-		return Val{T: fmt.Sprintf("%d", 1000000+vc.typeTag(x.Signature)), Clo: &Closure{Fn: x}, Typ: x.Type()}
+		return Val{T: vc.fnConst(x), Clo: &Closure{Fn: x}, Typ: x.Type()}
 	case *ssa.Builtin:
 		return Val{Typ: x.Type()}
 	}
@@ -590,6 +590,20 @@ func (vc *VC) operand(fr *Frame, v ssa.Value) Val {
 	}
 	vc.fatalf("use of undefined SSA value %s (%T) in %s", v.Name(), v, fr.fn)
 	return Val{T: "0", Typ: v.Type()}
+}
+
+// fnConst: the value of a function that captures nothing (distinct positive numerals, one per function).
+func (vc *VC) fnConst(fn *ssa.Function) string {
+	if vc.fnIDs == nil {
+		vc.fnIDs = map[string]int{}
+	}
+	key := fn.String()
+	id, ok := vc.fnIDs[key]
+	if !ok {
+		id = 2000000 + len(vc.fnIDs)
+		vc.fnIDs[key] = id
+	}
+	return fmt.Sprintf("%d", id)
 }
 
 func globalKey(g *ssa.Global) string { return g.Pkg.Pkg.Path() + "." + g.Name() }
@@ -779,7 +793,15 @@ func (vc *VC) execInstr(fr *Frame, in ssa.Instruction, st *State) {
 		for _, b := range x.Bindings {
 			bs = append(bs, vc.operand(fr, b))
 		}
-		fr.env[x] = Val{T: vc.freshConst("clo", "Int"), Clo: &Closure{Fn: fn, Bindings: bs}, Typ: x.Type()}
+		cloT := ""
+		if len(bs) == 0 {
+			// a closure that captures nothing is one function value
+			cloT = vc.fnConst(fn)
+		} else {
+			cloT = vc.freshConst("clo", "Int")
+			vc.emit(fmt.Sprintf("(assert (> %s 0))", cloT))
+		}
+		fr.env[x] = Val{T: cloT, Clo: &Closure{Fn: fn, Bindings: bs}, Typ: x.Type()}
 	case *ssa.Defer:
 		flag := vc.comp(vc.fresh("$deferred"), "Bool")
 		vc.init[flag] = "false"
